@@ -104,7 +104,10 @@ impl Out {
 pub fn run_driver(ctx: &Ctx) {
     let cases = File::open(ctx.out.join("cases.txt")).unwrap();
     let drv = File::create(ctx.out.join("drv.txt")).unwrap();
-    let st = std::process::Command::new(&ctx.drv)
+    // the driver runs under an address-space limit so that a runaway case cannot exhaust the machine
+    let st = std::process::Command::new("sh")
+        .arg("-c")
+        .arg(format!("ulimit -v 8000000; exec {}", ctx.drv))
         .stdin(cases)
         .stdout(drv)
         .status()
